@@ -10,6 +10,7 @@ import (
 	"encoding/binary"
 	"encoding/hex"
 	"fmt"
+	"os"
 
 	"acra-vh/vh"
 
@@ -142,6 +143,14 @@ func runC12(rep *vh.Report, r *vh.Rng, n int, thorough bool) {
 	}
 	// structured malformed extended-query messages (Bind / Parse / Execute / descriptions), every run
 	c12ExtendedTables(w, thorough)
+	// valid stream, family "message rewritten in place": deterministic tables on every run + seeded random sessions
+	// (C14 runs this domain for its malformed stream only: the valid-stream family belongs to C12's verdict and budget)
+	if os.Getenv("VERIF_PROP") != "C14" {
+		c12InPlaceTables(w, thorough)
+		for i := 0; i < 6+n/10; i++ {
+			c12InPlaceRandom(w, r, fmt.Sprintf("ip%d", i))
+		}
+	}
 	if thorough {
 		c12Huge(w, r)
 	}
